@@ -475,6 +475,20 @@ Check sais_go_is_sa_partial :
     exists sa, sais_go fuel t alpha = Some sa /\ is_sa t sa.
 Print Assumptions sais_go_is_sa_partial.
 
+(* SuffixArrayBuilder::build with the SA-IS model in place of the parameter: all five algorithm values *)
+Theorem build_with_sais_model_is_sa :
+  final_ok -> first_ok ->
+  forall opt (analyse : list N -> alg) c t,
+    (forall x, In x t -> (x < 256)%N) -> (N.of_nat (length t) <= MAX_TEXT_SIZE)%N ->
+    is_sa t (build (sais_fn opt) analyse c t).
+Proof. exact build_with_sais_model_is_sa_proof. Qed.
+Check build_with_sais_model_is_sa :
+  final_ok -> first_ok ->
+  forall opt (analyse : list N -> alg) c t,
+    (forall x, In x t -> (x < 256)%N) -> (N.of_nat (length t) <= MAX_TEXT_SIZE)%N ->
+    is_sa t (build (sais_fn opt) analyse c t).
+Print Assumptions build_with_sais_model_is_sa.
+
 Theorem sais_too_long_refused :
   forall opt t, (MAX_TEXT_SIZE < N.of_nat (length t))%N -> sais opt t = None.
 Proof. exact sais_too_long_proof. Qed.
